@@ -640,7 +640,7 @@ func TestVFC19CacheHistory(t *testing.T) {
 
 		h.db, h.universe = vfC19DrawDB(t, h.hosts, 8)
 		h.suffix = rapid.SampledFrom(vfC19TXTSuffixes).Draw(t, "txt_suffix")
-		h.size = vfC19DrawCacheSize(t)
+		h.size = vfC19DrawCacheSize(t, h.hosts, h.universe)
 		h.mutable = rapid.Bool().Draw(t, "db_mutable")
 		h.ups = &vfC19Ups{db: h.db, suffix: h.suffix}
 		h.ups.onAnswer = func(p vfC19Pfx, es []vfC19Entry) {
@@ -693,7 +693,14 @@ func TestVFC19CacheHistory(t *testing.T) {
 
 		vfC19.Eval()
 		vfC19.ClassN("history:checks", h.checks)
-		vfC19.Class(fmt.Sprintf("history:cache_size_%d", h.size))
+		switch _, open := vfkit.KnownOpen("C19", vfC19SigSmallCache); {
+		case !open:
+			vfC19.Class(fmt.Sprintf("history:cache_size_%d", h.size))
+		case h.size == 0 || h.size == 1<<20:
+			vfC19.Class(fmt.Sprintf("history:cache_size_%d", h.size))
+		default:
+			vfC19.Class("history:cache_size_one_or_two_answers")
+		}
 		if h.mutable {
 			vfC19.Class("history:db_mutable")
 		} else {
